@@ -456,3 +456,40 @@ func c10Provenance(c *core.Check) {
 		r.Cond(n == 0, "html/layout.blockContainerLayout | used height decides", p.Pos(fn.Pos()), "the computed height is never consulted", "the computed `height` is read at "+bad+": a percentage height resolved to auto would be treated as a definite height by the margin logic")
 	}
 }
+
+// c10Direction: the over-constrained case of CSS 2.1 §10.3.3 drops the margin of the *containing block's* end side:
+// the direction read in blockLevelWidth_ is the one of the containing block, not the one of the box being sized.
+func c10Direction(c *core.Check) {
+	p := c.Prog
+	r := c.Rule("R13", "the direction that decides which margin is recomputed in the over-constrained case is the containing block's: in blockLevelWidth_ every GetDirection() is called on the style of the value obtained from the containing-block parameter (the type switch on it), never on the style of the box being sized", 1)
+	fn := p.Fn("html/layout", "blockLevelWidth_")
+	if fn == nil || len(fn.Params) < 3 {
+		r.Anchor("html/layout.blockLevelWidth_")
+		return
+	}
+	cbParam := fn.Params[2]
+	boxParam := fn.Params[0]
+	n := 0
+	core.Instrs(fn, func(in ssa.Instruction) {
+		call, ok := in.(*ssa.Call)
+		if !ok || !call.Call.IsInvoke() || call.Call.Method.Name() != "GetDirection" {
+			return
+		}
+		n++
+		fromCB := core.DerivesFrom(call.Call.Value, func(v ssa.Value) bool { return v == ssa.Value(cbParam) })
+		fromBox := core.DerivesFrom(call.Call.Value, func(v ssa.Value) bool {
+			if v == ssa.Value(boxParam) {
+				return true
+			}
+			// box := box_.Box()
+			if c2, ok := v.(*ssa.Call); ok && c2.Call.IsInvoke() && c2.Call.Method.Name() == "Box" && c2.Call.Value == ssa.Value(boxParam) {
+				return true
+			}
+			return false
+		})
+		r.Cond(fromCB && !fromBox, "html/layout.blockLevelWidth_ | direction of the containing block", p.Pos(call.Pos()), "read from the containing block's style", "the direction is read from the box being sized: an ltr block inside an rtl parent keeps its left margin and lands at the wrong edge (x=10 instead of 80)")
+	})
+	if n == 0 {
+		r.Anchor("blockLevelWidth_: GetDirection()")
+	}
+}
